@@ -515,6 +515,9 @@ class MarkdownNormalizer(Renderer):
         self._in_heading = True
         self._current_inline_text = ""
         children_content = self.render_children(element)
+        # A (setext) heading may span several source lines, an ATX heading cannot: join
+        # soft line breaks with a space (hard breaks, "\\\n", are kept).
+        children_content = re.sub(r"(?<!\\)\n", " ", children_content)
         self._in_heading = False
         self._current_inline_text = ""
         # If heading ends with hard break, don't add extra newline
